@@ -1148,7 +1148,7 @@ theorem fraction_nodot (c : Nat) (t : Bytes) (h : c ≠ 46) : fraction (c :: t) 
   · rename_i heq; simp at heq; exact absurd heq.1 h
   · rfl
 
-/-- mantissa part of scanNumber against the Spec's decomposition of `ch :: inp`. -/
+/-- mantissa part of scanNumberCore against the Spec's decomposition of `ch :: inp`. -/
 theorem scanMant (ch : Nat) (inp : Bytes) (hst : startsNumber ch inp) :
     ∃ (dot : Bool),
       scanFrac ch (scanDecimal [ch] inp) =
@@ -1211,8 +1211,8 @@ theorem literal_isSome (t : Bytes) : (literal t).isSome = (unsigned t).isSome :=
   unfold literal; cases unsigned t <;> rfl
 
 /-- **every number token the lexer produces is a Lua numeral** (so compile.go's NaN fallback is dead code). -/
-theorem scanNumber_tok_numeral (ch : Nat) (inp t rest : Bytes) (hst : startsNumber ch inp)
-    (h : scanNumber ch inp = .tok t rest) : (literal t).isSome = true := by
+theorem scanNumberCore_tok_numeral (ch : Nat) (inp t rest : Bytes) (hst : startsNumber ch inp)
+    (h : scanNumberCore ch inp = .tok t rest) : (literal t).isSome = true := by
   rw [literal_isSome]
   have decimalPath : scanExp (scanFrac ch (scanDecimal [ch] inp)) = .tok t rest → (unsigned t).isSome = true := by
     intro h
@@ -1228,7 +1228,7 @@ theorem scanNumber_tok_numeral (ch : Nat) (inp t rest : Bytes) (hst : startsNumb
     have hnh : ¬ hex3 (((ch :: inp).takeWhile isDec ++ (if dot then 46 :: (fraction ((ch :: inp).dropWhile isDec)).1 else [])) ++ ex) := by
       intro hh; rw [decimal_hex3_none _ hh] at hb; simp at hb
     rw [unsigned_not_hex3 _ hnh]; exact hb
-  unfold scanNumber at h
+  unfold scanNumberCore at h
   cases inp with
   | nil => exact decimalPath h
   | cons x t' =>
@@ -1277,7 +1277,7 @@ theorem isLuaWs_start (ch : Nat) (inp : Bytes) (hst : startsNumber ch inp) : isL
   · decide
 
 /-- **every Lua numeral is lexed as one token, whole.** -/
-theorem lexNumber_numeral (s : Bytes) (v : Exact) (h : literal s = some v) : lexNumber scanNumber s = .tok s [] := by
+theorem lexNumberCore_numeral (s : Bytes) (v : Exact) (h : literal s = some v) : lexNumber scanNumberCore s = .tok s [] := by
   have hu : (unsigned s).isSome = true := by rw [← literal_isSome, h]; rfl
   by_cases hh : hex3 s
   · obtain ⟨x, c, r, rfl, hx⟩ := hh
@@ -1294,7 +1294,7 @@ theorem lexNumber_numeral (s : Bytes) (v : Exact) (h : literal s = some v) : lex
     simp only [List.dropWhile_cons, h48, Bool.false_eq_true, if_false]
     have hd48 : isDec 48 = true := by decide
     simp only [hd48, if_true]
-    unfold scanNumber
+    unfold scanNumberCore
     simp only [hx, and_self, if_true, scanHex_eq, takeWhile_all _ _ hall, dropWhile_all _ _ hall]
     simp
   · rw [unsigned_not_hex3 s hh] at hu
@@ -1314,7 +1314,7 @@ theorem lexNumber_numeral (s : Bytes) (v : Exact) (h : literal s = some v) : lex
           | nil =>
             rcases hx with rfl | rfl <;> simp [decimal, fraction, exponent, isDec] at hd
           | cons c r => exact hh ⟨x, c, r, rfl, hx⟩
-        have hscan : scanNumber ch inp = .tok (ch :: inp) [] := by
+        have hscan : scanNumberCore ch inp = .tok (ch :: inp) [] := by
           have body : scanExp (scanFrac ch (scanDecimal [ch] inp)) = .tok (ch :: inp) [] := by
             obtain ⟨dot, hm, hdot, hnd, hcat⟩ := scanMant ch inp hst
             rw [hm]
@@ -1327,7 +1327,7 @@ theorem lexNumber_numeral (s : Bytes) (v : Exact) (h : literal s = some v) : lex
             | none => rw [hex] at hd; simp at hd
             | some e' =>
               rw [scanExp_full _ _ e' hex, hcat]
-          unfold scanNumber
+          unfold scanNumberCore
           cases inp with
           | nil => exact body
           | cons x t' =>
@@ -1340,6 +1340,36 @@ theorem lexNumber_numeral (s : Bytes) (v : Exact) (h : literal s = some v) : lex
         · have h46 : isDec 46 = false := by decide
           simp only [h46, Bool.false_eq_true, if_false, if_true, hdd]
           exact hscan
+
+/-- **every number token the lexer produces is a Lua numeral** (so compile.go's NaN fallback is dead code). -/
+theorem scanNumber_tok_numeral (ch : Nat) (inp t rest : Bytes) (hst : startsNumber ch inp)
+    (h : scanNumber ch inp = .tok t rest) : (literal t).isSome = true :=
+  scanNumberCore_tok_numeral ch inp t rest hst (numeralEnd_tok _ _ _ _ h)
+
+/-- **every Lua numeral is lexed as one token, whole** (nothing follows it, so `numeralEnd` lets it pass). -/
+theorem lexNumber_numeral (s : Bytes) (v : Exact) (h : literal s = some v) : lexNumber scanNumber s = .tok s [] := by
+  have hc := lexNumberCore_numeral s v h
+  unfold lexNumber at hc ⊢
+  split
+  · rename_i heq; rw [heq] at hc; simp at hc
+  · rename_i c r heq
+    rw [heq] at hc
+    simp only at hc ⊢
+    split
+    · rename_i hd; rw [if_pos hd] at hc; unfold scanNumber; rw [hc]; exact numeralEnd_nil _ _
+    · rename_i hd
+      rw [if_neg hd] at hc
+      split
+      · rename_i h46
+        rw [if_pos h46] at hc
+        split
+        · rename_i d r' 
+          simp only at hc
+          split
+          · rename_i hdd; rw [if_pos hdd] at hc; unfold scanNumber; rw [hc]; exact numeralEnd_nil _ _
+          · rename_i hdd; rw [if_neg hdd] at hc; simp at hc
+        · simp at hc
+      · rename_i h46; rw [if_neg h46] at hc; simp at hc
 
 theorem exponent_noblank (r2 : Bytes) (h : (exponent r2).isSome = true) : ∀ c ∈ r2, isBlank c = false := by
   cases hx : exponent r2 with
